@@ -10,6 +10,7 @@ def explore(run, lean):
     instr_corr.clear_probe(run, "C20", 620 if run.tier == "quick" else 1500)
     instr_corr.handler_clear_probe(run, "C20", 30 if run.tier == "quick" else 600)
     instr_corr.orthogonal_probe(run, "C20", 40 if run.tier == "quick" else 800)
+    instr_corr.reentrant_step_probe(run, "C20")
     instr_corr.meta_signal_probe(run)
     run.extra["rule"] = ("random spied charts (<=7 states) on an instrumented HsmWithQueues whose handlers post/defer/recall/scribble; "
                          "scripts of start_at + 2-12 client ops (posts, defer, recall, next_rtc), some with a post before start_at; "
